@@ -12,6 +12,7 @@ import Noodles.Hostile.DriverC15Text
 import Noodles.Hostile.DriverC15Bin
 import Noodles.Hostile.DriverC15Codec
 import Noodles.Hostile.DriverC15Rec
+import Noodles.Hostile.DriverC15HdrTxt
 /-! Line-protocol handler for the hostile-input suites (`c15 …`). -/
 namespace Noodles.Hostile
 open Noodles.Wire hiding Bytes
@@ -93,6 +94,7 @@ def handleC15 : List String → String
       fmtRes (fun (l : List Nat) => s!"ok:{fmtIds l}") (Csi.query true ms d ids st en)
     | _, _, _, _, _ => "bad-op"
   | "rec" :: ws => (RecDriver.handle? ("rec" :: ws)).getD "bad-op"
+  | "hdrtxt" :: ws => HdrTxtDriver.handle ws
   | ws => (Bin.handleC15Bin ws <|> CodecDriver.handle? ws).getD (TextDriver.handleC15Text ws)
 
 end Noodles.Hostile
